@@ -14,15 +14,15 @@ import (
 func init() { commands["C07"] = runC07 }
 
 type c07Input struct {
-	Kind  string     `json:"kind"` // row | pair | rules
-	Alpha []byte     `json:"alpha,omitempty"`
-	NLen  int        `json:"nlen,omitempty"`
-	Pat   []byte     `json:"pat,omitempty"`
-	Name  []byte     `json:"name,omitempty"`
-	PatQ  string     `json:"pat_q,omitempty"`
-	NameQ string     `json:"name_q,omitempty"`
-	Rules []c07Rule  `json:"rules,omitempty"`
-	Act   string     `json:"action,omitempty"`
+	Kind  string    `json:"kind"` // row | pair | rules
+	Alpha []byte    `json:"alpha,omitempty"`
+	NLen  int       `json:"nlen,omitempty"`
+	Pat   []byte    `json:"pat,omitempty"`
+	Name  []byte    `json:"name,omitempty"`
+	PatQ  string    `json:"pat_q,omitempty"`
+	NameQ string    `json:"name_q,omitempty"`
+	Rules []c07Rule `json:"rules,omitempty"`
+	Act   string    `json:"action,omitempty"`
 }
 
 type c07Rule struct {
